@@ -295,24 +295,6 @@ class C12(Check):
             cls = m[-1].split('.')[-1] if m else '-'
             acc = c['accs'][len(res['outs']) - 1] if res['outs'] else '?'
             return f'status-{st}:{cls}', f'{fl.ACC_ATTR.get(acc, acc)} answered {st}: {res["errors"].strip().splitlines()[-1:] }'
-        # a failed form parse stays failed (fix 9db424c): once POST / forms / files has raised, reading any of them
-        # again - or params, which is built from forms - raises the same error; a second access never presents
-        # what the failed run had collected so far as a complete form
-        first = next((a for a in c['accs'] if a in 'pfF'), None)
-        if first is not None:
-            try:
-                rr = core.with_timeout(lambda: rig.post(c['ct'], bytes.fromhex(c['wire']), [first, 'f', 'P', 'F', 'p', first],
-                                                        cl=c['cl'], chunked=c['chunked'], max_memfile=c['max_memfile'],
-                                                        sched=c['sched'], max_body=c['max_body'], record=False, catch=True),
-                                       CALL_BUDGET)
-            except core.Hang:
-                return 'hang:' + hang_class(c), f'the request did not complete within {CALL_BUDGET} s of CPU time'
-            o = rr['outs']
-            if o and not o[0].startswith('ok'):
-                for a, x in zip('fPFp' + first, o[1:]):
-                    if x != o[0]:
-                        return ('reread-after-error:partial-forms',
-                                f'{fl.ACC_ATTR[first]} answered "{o[0]}", {fl.ACC_ATTR[a]} read afterwards answered "{x[:60]}"')
         # delivered fields
         if c['kind'] == 'multipart' and st == 200:
             payload = bytes.fromhex(c['payload'])
